@@ -94,7 +94,9 @@ def call(desc, env=None):
         with warnings.catch_warnings():
             warnings.simplefilter("ignore")
             res = compute_taxes_and_transfers(data=data, params=params, functions=functions,
-                                              targets=desc["targets"], rounding=desc["rounding"])
+                                              targets=desc["targets"], rounding=desc["rounding"],
+                                              aggregate_by_group_specs=desc.get("group_specs"),
+                                              aggregate_by_p_id_specs=desc.get("p_id_specs"))
     except Exception as e:  # noqa: BLE001
         return f"EXC:{type(e).__name__}", data
     return compare.frame_digest(res), data
